@@ -2019,4 +2019,148 @@ theorem resolve_fuel_sufficient (k : Nat) (q : Query) (d : Nat) (st : St) :
 
 end fuel
 
+/-! ## 12. `ns_addrs_allowed`, local part: where the addresses of a freshly built pool come from -/
+
+section origin
+
+def GlueP (P : Ip → Prop) (m : GlueMap) : Prop := ∀ e ∈ m, ∀ ip ∈ e.2, P ip
+
+theorem glueGetP {P : Ip → Prop} {m : GlueMap} (hm : GlueP P m) {n : Name} {ips : List Ip}
+    (h : glueGet m n = some ips) : ∀ ip ∈ ips, P ip := by
+  unfold glueGet at h
+  simp only [Option.map_eq_some_iff] at h
+  obtain ⟨e, he, rfl⟩ := h
+  exact hm e (List.mem_of_find?_eq_some he)
+
+theorem gluePutP {P : Ip → Prop} {m : GlueMap} (hm : GlueP P m) (n : Name) {ip : Ip} (hip : P ip) :
+    GlueP P (gluePut m n ip) := by
+  unfold gluePut
+  split
+  · intro e he ip' hip'
+    simp only [List.mem_append, List.mem_singleton] at he
+    rcases he with he | rfl
+    · exact hm e he ip' hip'
+    · simp only [List.mem_singleton] at hip'
+      subst hip'; exact hip
+  · intro e he ip' hip'
+    simp only [List.mem_map] at he
+    obtain ⟨e0, he0, rfl⟩ := he
+    split at hip'
+    · split at hip'
+      · exact hm e0 he0 ip' hip'
+      · simp only [List.mem_append, List.mem_singleton] at hip'
+        rcases hip' with h | rfl
+        · exact hm e0 he0 ip' h
+        · exact hip
+    · exact hm e0 he0 ip' hip'
+
+/-- an address record of `rs` that the name-server filter admits -/
+def FromRecords (f : Acs) (rs : List Record) (ip : Ip) : Prop :=
+  f.denied ip = false ∧ ∃ x ∈ rs, x.data.ip? = some ip
+
+theorem addGlueP {f : Acs} {P : Ip → Prop} : ∀ (rs : List Record) (m : GlueMap), GlueP P m →
+    (∀ ip, FromRecords f rs ip → P ip) → GlueP P (addGlue f m rs) := by
+  intro rs
+  induction rs with
+  | nil => intro m hm _; exact hm
+  | cons r rs ih =>
+    intro m hm hP
+    have hP' : ∀ ip, FromRecords f rs ip → P ip := fun ip h =>
+      hP ip ⟨h.1, by obtain ⟨x, hx, hxi⟩ := h.2; exact ⟨x, List.mem_cons_of_mem _ hx, hxi⟩⟩
+    unfold addGlue
+    split
+    · rename_i ip hip
+      split
+      · exact ih m hm hP'
+      · rename_i hden
+        exact ih _ (gluePutP hm r.name (hP ip ⟨by simpa using hden, r, by simp, hip⟩)) hP'
+    · exact ih m hm hP'
+
+/-- an admitted address record of a positive entry of the response cache -/
+def FromCache (f : Acs) (st : St) (ip : Ip) : Prop :=
+  ∃ q r, (q, Except.ok r) ∈ st.rcache ∧ FromRecords f r.all ip
+
+theorem cachedGlueP {f : Acs} {P : Ip → Prop} (st : St) (target : Name) {m : GlueMap}
+    (hm : GlueP P m) (hP : ∀ ip, FromCache f st ip → P ip) : GlueP P (cachedGlue f st target m) := by
+  have step : ∀ (m : GlueMap) (q : Query), GlueP P m → GlueP P (match rcGet st.rcache q with
+      | some (.ok r) => addGlue f m r.all
+      | _ => m) := by
+    intro m q hm
+    split
+    · rename_i r hg
+      obtain ⟨k, hk⟩ := rcGet_mem hg
+      exact addGlueP _ _ hm (fun ip h => hP ip ⟨k, r, hk, h⟩)
+    · exact hm
+  unfold cachedGlue
+  exact step _ _ (step m _ hm)
+
+theorem collectNsP {f : Acs} {P : Ip → Prop} (st : St) (parent : Name)
+    (hP : ∀ ip, FromCache f st ip → P ip) :
+    ∀ (rs : List Record) (m : GlueMap) (config : List Ip) (need : List Name),
+      GlueP P m → (∀ ip ∈ config, P ip) →
+      ∀ ip ∈ (collectNs f st parent rs m config need).1, P ip := by
+  intro rs
+  induction rs with
+  | nil => intro m config need _ hc; simpa [collectNs] using hc
+  | cons r rs ih =>
+    intro m config need hm hc
+    unfold collectNs
+    split
+    · rename_i target hdata
+      split
+      · exact ih m config need hm hc
+      · have hm' := cachedGlueP (f := f) st target hm hP
+        dsimp only
+        split
+        · rename_i ip ips hg
+          refine ih _ _ need hm' ?_
+          intro ip' hip'
+          simp only [List.mem_append] at hip'
+          rcases hip' with h | h
+          · exact hc ip' h
+          · exact glueGetP hm' hg ip' h
+        · exact ih _ config _ hm' hc
+    · exact ih m config need hm hc
+
+/-- **`ns_addrs_allowed`** (local part): every address of a pool built by `ns_pool_for_name` passes
+the name-server filter and is
+* the rdata of an address record of the NS response the pool is built from (all of whose records
+  are in the bailiwick of the parent zone — `nsQuery_in_bailiwick`), or
+* the rdata of an address record of a positive entry of the response cache (all of whose records
+  are in the bailiwick of the zone that entry was fetched for — `cached_in_bailiwick`), or
+* an address `append_ips_from_lookup` obtained by looking the name-server name up (§9b). -/
+theorem pool_addr_origin (cfg : Config) (net : Net) (rec : NsRec) (zone : Name) (depth : Nat)
+    (pool : Pool) (resp : Response) (st : St) :
+    ∀ ip ∈ (buildPool cfg net rec zone depth pool resp st).2.ips,
+      FromRecords cfg.serverFilter resp.all ip ∨ FromCache cfg.serverFilter st ip ∨
+      (cfg.serverFilter.denied ip = false ∧
+        ip ∈ (appendIps cfg net rec zone depth pool
+          (collectNs cfg.serverFilter st (base zone) resp.all
+            (addGlue cfg.serverFilter [] resp.all) [] []).2 st).2) := by
+  unfold buildPool
+  dsimp only
+  split
+  · intro ip hip
+    exact Or.inr (Or.inr ⟨appendIps_ok _ _ _ _ _ _ ip hip, hip⟩)
+  · intro ip hip
+    have := collectNsP (f := cfg.serverFilter)
+      (P := fun ip => FromRecords cfg.serverFilter resp.all ip ∨ FromCache cfg.serverFilter st ip)
+      st (base zone) (fun ip h => Or.inr h) resp.all (addGlue cfg.serverFilter [] resp.all) [] []
+      (addGlueP _ _ (by intro e he; cases he) (fun ip h => Or.inl h)) (by simp) ip hip
+    rcases this with h | h
+    · exact Or.inl h
+    · exact Or.inr (Or.inl h)
+
+/-- the NS response a pool is built from, when it was fetched (not taken from the cache), is in the
+bailiwick of the parent of the zone being delegated -/
+theorem nsQuery_in_bailiwick (cfg : Config) (net : Net) (zone : Name) (pool : Pool) (st : St)
+    (hmiss : rcGet st.rcache ⟨zone, T_NS⟩ = none) (r : Response)
+    (h : (nsQuery cfg net zone pool st).2 = .ok r) :
+    ∀ x ∈ r.all, isSubzone (base zone) x.name = true := by
+  unfold nsQuery at h
+  rw [hmiss] at h
+  exact ((lookup_frame cfg net ⟨zone, T_NS⟩ (base zone) pool st).2.2.2.2.2.2.2 r h).1
+
+end origin
+
 end HickoryVerif.C19
